@@ -540,7 +540,15 @@ func genCase(t *rapid.T) Case {
 		if dl == 0 {
 			dl = 1
 		}
-		return inscription(pubBytes, ct, gen.FillBytes(t, dl, label+"_data"))
+		ins := inscription(pubBytes, ct, gen.FillBytes(t, dl, label+"_data"))
+		// enriched form: ... OP_ENDIF OP_RETURN <items>; a top-level OP_RETURN only succeeds after genesis
+		if c.AfterGenesis && rapid.IntRange(0, 2).Draw(t, label+"_enrich") == 0 {
+			ins = append(ins, 0x6a)
+			for k := rapid.IntRange(0, 3).Draw(t, label+"_nret"); k > 0; k-- {
+				ins = append(ins, push(gen.Bytes(t, rapid.IntRange(1, 4).Draw(t, label+"_retlen"), label+"_ret"))...)
+			}
+		}
+		return ins
 	}
 
 	m := ref.Tx{Version: gen.U32(t, "version"), LockTime: gen.U32(t, "locktime")}
